@@ -285,6 +285,18 @@ func (c *Case) JSONEncode(v reflect.Value, validate bool) (out Outcome) {
 	return out
 }
 
+// JSONEncodeByValue calls API.JSONEncode with the root struct itself instead of a pointer to it.
+func (c *Case) JSONEncodeByValue(v reflect.Value, validate bool) (out Outcome) {
+	defer func() {
+		if r := recover(); r != nil {
+			out.Panic = r
+		}
+	}()
+	out.Bytes, out.Err = c.API.JSONEncode(context.Background(), v.Interface(), opts(validate)...)
+
+	return out
+}
+
 // JSONDecode calls API.JSONDecode into a fresh value of the root type.
 func (c *Case) JSONDecode(doc []byte, validate bool) (out Outcome) {
 	p := reflect.New(c.Root.T)
